@@ -560,13 +560,13 @@ func (k *kvRun) resolveCas(mode, coll, key string) uint64 {
 		return 4242
 	case "bogus":
 		return 12345
-	case "max": // never issued either: the largest values the SQL driver accepts (a uint64 with the high bit set is
-		// refused by database/sql before it reaches SQLite: the call fails with a driver error - not modelled)
-		return 1<<63 - 1
+	case "max": // never issued either: the largest 64-bit values and 2^63.  database/sql refuses a uint64 with the high
+		// bit set as a statement parameter; only WriteCas passes the expected CAS to SQLite (Kv.do_writecas)
+		return ^uint64(0)
 	case "maxm1":
-		return 1<<63 - 2
+		return ^uint64(0) - 1
 	case "big":
-		return 1 << 62
+		return []uint64{1 << 63, 1<<63 - 1, 1 << 62}[(len(h)+len(key))%3]
 	default:
 		return 0
 	}
